@@ -278,6 +278,9 @@ def ctx_arg_mc(ctx, mod, kind):
     if ctx is None or not kind:
         return ctx_arg(ctx, mod)
     if 'dict' in ctx:
+        # the name of a dict context is made of str() of its values, and the name is recorded in run info: only a
+        # subclass that prints like a dict keeps the records those of the plain context
+        kind = 'attr'
         d = subst_mod(spec_to_doc(ctx['dict']), mod)
         out = with_mapping_class(d, kind)
         if 'for_namespaces' in d:
@@ -523,6 +526,9 @@ def exec_segment(case, mod, ops, fail):
                             out = 'error'
                     elif kind == 'force_task':
                         chain.tasks[resolved['name']].force(delete_data=op['delete'])
+                        out = ['ok', None]
+                    elif kind == 'reset':
+                        chain.tasks[resolved['name']].reset_data()
                         out = ['ok', None]
                     elif kind == 'force_chain':
                         chain.force(resolved['names'], recompute=op['recompute'], delete_data=op['delete'])
